@@ -457,7 +457,12 @@ func (a *Agent) gatherCandidatesLocal(ctx context.Context, networkTypes []Networ
 					if udpConn, ok := conn.LocalAddr().(*net.UDPAddr); ok {
 						conns = append(conns, connAndPort{conn, udpConn.Port})
 					} else {
-						a.log.Warnf("Failed to get port of UDPAddr from ListenUDPInPortRange: %s %s %s", network, addr, a.localUfrag)
+						closeConnAndLog(
+							conn,
+							a.log,
+							"Failed to get port of UDPAddr from ListenUDPInPortRange: %s %s %s",
+							network, addr, a.localUfrag,
+						)
 
 						continue
 					}
